@@ -13,8 +13,8 @@ From Coq Require Import String.
 From Coq Require Import List Arith ZArith Bool.
 Import ListNotations.
 Require Import MD.Sched.ParFor MD.Sched.Proofs MD.Sched.Scratch MD.Sched.ScratchProofs MD.Sched.Kernels MD.Sched.KernelProofs.
-Require Import MD.Sched.FrameLoop MD.Sched.FrameLoopProofs.
-Require Import MD.Sasa.Model MD.Sasa.Proofs MD.Gen.SchedSasa MD.Gen.SchedKernels.
+Require Import MD.Sched.FrameLoop MD.Sched.FrameLoopProofs MD.Sched.FrameLoopPar MD.Gen.SchedPyx.
+Require Import MD.Sasa.Model MD.Sasa.Proofs MD.Sasa.LowLevel MD.Sasa.LowLevelProofs MD.Gen.SchedSasa MD.Gen.SchedKernels.
 Open Scope Z_scope.
 
 (* ---- the general statement ---- *)
@@ -117,6 +117,16 @@ Theorem sasa_source_loop_classified : ok_prog sasa_prog = true \/ sasa_prog = sa
 Proof. exact sasa_prog_classified. Qed.
 Print Assumptions sasa_source_loop_classified.
 
+(* the other two per-thread buffers of sasa() - wb1 (neighbor_indices) and wb2 (centered_sphere_points) - are handed to
+   asa_frame with whatever the thread's previous frame left in them: in the buffer-level model of asa_frame
+   (MD.Sasa.LowLevel) the areas do not depend on that content *)
+Theorem sasa_work_buffers_carry_nothing : forall K M pts ats mask buf wb1 wb2 wb1' wb2',
+  (length ats <= length wb1)%nat -> (length pts <= length wb2)%nat ->
+  (length ats <= length wb1')%nat -> (length pts <= length wb2')%nat ->
+  fst (asa_frame_ll K M pts ats mask buf wb1 wb2) = fst (asa_frame_ll K M pts ats mask buf wb1' wb2').
+Proof. exact asa_frame_ll_ignores_work_buffers. Qed.
+Print Assumptions sasa_work_buffers_carry_nothing.
+
 (* ---- serial frame loops with carried pointers (dssp, kabsch_sander, distance/angle/dihedral kernels, centering) ---- *)
 (* A loop body over scratch cells and self-advanced cursors that (a) never reads a cell before writing it in the same
    iteration and (b) advances every cursor it uses exactly once per iteration, after the last use, leaves at output
@@ -152,6 +162,86 @@ Print Assumptions percall_kernels_keep_no_state.
 Theorem kernel_sources_keep_no_state_between_calls : kernel_files_static_state = [].
 Proof. exact kernel_files_stateless. Qed.
 Print Assumptions kernel_sources_keep_no_state_between_calls.
+
+
+(* ---- PARALLEL frame loops (cython prange, omp for) written as FrameLoop terms ---- *)
+(* A body that obeys the discipline and uses no self-advanced cursor (par_ok) run as a parallel loop: under every
+   schedule that runs each iteration, from any initial private state, slot i of the result holds exactly what the body
+   writes on frame i alone from the empty state. *)
+Theorem parallel_frame_loop_schedule_free : forall G A p, par_ok p = true -> forall n s0 sched, covers n sched ->
+  parfor (fbody G A p) s0 0%nat (seq 0 n) sched =
+  map (fun i => Some (map (lift i) (snd (frun G (shift A i) p 0 ([], []))))) (seq 0 n).
+Proof. exact par_loop_schedule_free. Qed.
+Print Assumptions parallel_frame_loop_schedule_free.
+
+(* the parallel loop leaves what the serial loop leaves (the parallel= flag of md.rmsd / superpose changes nothing) *)
+Theorem parallel_frame_loop_eq_serial : forall G A p, par_ok p = true -> forall n s0 sched j, covers n sched -> (j < n)%nat ->
+  nth j (parfor (fbody G A p) s0 0%nat (seq 0 n) sched) None =
+  Some (map (fun v => (j, v)) (writes_at j (floop G A p n 0 (fst s0, [])))).
+Proof. exact par_loop_eq_serial. Qed.
+Print Assumptions parallel_frame_loop_eq_serial.
+
+(* no two iterations write the same output slot *)
+Theorem parallel_iteration_writes_own_slot : forall G A p, par_ok p = true -> forall i st,
+  Forall (fun w => fst w = i) (snd (frun G A p i st)).
+Proof. exact par_ok_writes_own_slot. Qed.
+Print Assumptions parallel_iteration_writes_own_slot.
+
+(* the terms regenerated in THIS run from _rmsd.pyx, drid.pyx, neighbors.pyx (one per control-flow path of each prange /
+   range loop over frames) and from the hand-written omp loops of sasa.cpp and center_sse.h obey the discipline ... *)
+Theorem cython_frame_loops_disciplined : forallb (fun k => fdisc (snd k)) pyx_loops = true.
+Proof. exact pyx_loops_disciplined. Qed.
+Print Assumptions cython_frame_loops_disciplined.
+
+Theorem cython_frame_loops_local : forall name p, In (name, p) pyx_loops ->
+  forall G A n s0 s0' j, (j < n)%nat ->
+  writes_at j (floop G A p n 0 (s0, [])) = map snd (snd (frun G (shift A j) p 0 (s0', []))).
+Proof.
+  intros name p Hin G A. apply (FrameLoopProofs.frame_loop_local G A p).
+  exact (proj1 (forallb_forall _ _) pyx_loops_disciplined (name, p) Hin).
+Qed.
+Print Assumptions cython_frame_loops_local.
+
+(* ... and the parallel ones among them give the same result under any two schedules / thread counts *)
+Theorem mdtraj_parallel_loops_schedule_free : forall name p, In (name, p) parallel_loops ->
+  forall G A n s0 s0' sc1 sc2, covers n sc1 -> covers n sc2 ->
+  parfor (fbody G A p) s0 0%nat (seq 0 n) sc1 = parfor (fbody G A p) s0' 0%nat (seq 0 n) sc2.
+Proof.
+  intros name p Hin G A. apply (par_loop_any_two_schedules G A p).
+  exact (proj1 (forallb_forall _ _) parallel_loops_par_ok (name, p) Hin).
+Qed.
+Print Assumptions mdtraj_parallel_loops_schedule_free.
+
+(* OpenMP clauses, per run: the C++ cython generated has one `omp for` per prange of the .pyx, none with a reduction clause
+   (no prange body updates a scalar in place), every scalar a prange body assigns is lastprivate there; every variable
+   an omp loop body of sasa.cpp / center_sse.h writes and that lives outside the region is in a private clause *)
+Theorem prange_loops_have_no_reduction : prange_reductions = [].
+Proof. exact no_reductions. Qed.
+Print Assumptions prange_loops_have_no_reduction.
+
+Theorem prange_assigned_scalars_are_private : prange_unprivatised = [] /\ prange_generated_mismatch = [].
+Proof. exact (conj prange_scalars_private prange_generated_in_step). Qed.
+Print Assumptions prange_assigned_scalars_are_private.
+
+Theorem omp_loop_written_variables_are_private : omp_unprivatised = [].
+Proof. exact omp_written_variables_private. Qed.
+Print Assumptions omp_loop_written_variables_are_private.
+
+(* a scalar accumulated across iterations (what cython would compile to a reduction), a shared slot written by every
+   iteration and a self-advanced cursor are all rejected for a parallel loop; the rmsd body is accepted and evaluates *)
+Example parallel_discipline_not_vacuous :
+  par_ok [FSet 1 (FAdd (FCell 1) (FIdx 0)); FOutIdx (FCell 1)] = false /\
+  par_ok [FSet 1 (FVia 0 0); FOutVia 0 (FCell 1); FAdv 0] = false /\
+  par_ok [FSet 1 (FAdd (FIdx 0) (FGlob 0)); FOutIdx (FCell 1)] = true /\
+  covers 3 (sched_static 3 2) /\
+  parfor (fbody (fun _ => 100) (fun _ i => Z.of_nat i) [FSet 1 (FAdd (FIdx 0) (FGlob 0)); FOutIdx (FCell 1)])
+         ([7; 7], []) 0%nat (seq 0 3) (sched_static 3 2) =
+  [Some [(0%nat, 100)]; Some [(1%nat, 101)]; Some [(2%nat, 102)]].
+Proof.
+  split; [reflexivity|]. split; [reflexivity|]. split; [reflexivity|].
+  split; [apply static_covers; repeat constructor|reflexivity].
+Qed.
+Print Assumptions parallel_discipline_not_vacuous.
 
 (* a loop that stops advancing a pointer it reads through, or reads a buffer before refilling it, is rejected *)
 Example undisciplined_loops_rejected :
